@@ -2,11 +2,13 @@ package main
 
 import (
 	"verifh/checks/c01"
+	"verifh/checks/c02"
 	"verifh/checks/c07"
 	"verifh/mc"
 )
 
 var registry = map[string]*mc.Check{
 	"C01": c01.Check,
+	"C02": c02.Check,
 	"C07": c07.Check,
 }
